@@ -11,6 +11,21 @@ CHECKS = {
             "Every node tree up to the node bound (quick <=5, thorough <=6 nodes plus <=7 over a tiny alphabet) with anchors on scalars/sequences/mappings/keys, re-definitions, aliases in key/value/item/merge-value position, in three layouts and for every applicable target, is deserialized twice by the real library: as written and after the harness' reference expansion (aliases replaced by copies of the most recently anchored node, anchors removed). Results must be equal; unresolvable or self-referential aliases must be errors. The space is enumerated completely, so the verdict is a coverage statement for that scope.",
             "Trusted: saphyr-parser's event stream as the definition of the document (every rendered text is self-checked against raw parser events; mismatches are counted as generator_rejected and never reported); the harness' reference expansion (40 lines).",
             "DESIGN.md §3 C02"),
+    "C03": ("model_checking",
+            "bounded-exhaustive enumeration of merge-entry sequences, reference merge on document trees, metamorphic comparison with the explicitly merged document through the real code",
+            "All sequences of up to N entries (quick 3 for the full product, 4 for the untyped target; thorough one more) over a 23-entry menu (own keys, << with alias / inline map / sequence / nested sequence / null, sources with one and two nested << entries and << sequences, invalid merge values, quoted and tagged << look-alikes) x 3 duplicate-key policies x 4 targets (ordered untyped tree, BTreeMap, struct, order-preserving pair collector) x 2 layouts. The harness' reference merge writes the mapping out in full (own entries first, then sources from last to first, recursively); the real library must give the same value (and key order) for both documents, must reject invalid merge values, and the explicit document's value is checked against an independent untyped reference.",
+            "Trusted: saphyr-parser events (generator self-check), the 40-line reference merge. Order of merged keys is part of the comparison (as the statement says keys come from own entries first, then sources last to first).",
+            "DESIGN.md §3 C03"),
+    "C04": ("model_checking",
+            "bounded-exhaustive enumeration of mappings with repeated keys of every YAML kind x policies x contexts x targets; reference de-duplication; real code executed under all three policies",
+            "All mappings with up to N entries (quick 2 over the full 12-key x 5-value alphabet, 3 over a reduced one; thorough one more) with scalar (plain/quoted/tagged), sequence, mapping and aliased keys and small/large/aliased/block-scalar values, nested at the root of an item, as a mapping value and as a sequence item with a trailing sibling that exposes a mis-sized skip, block and flow, read into an overwriting map, an order-preserving pair collector and a struct. Error must fail with DuplicateMappingKey located at the first repeated key (generator position table), FirstWins must equal the real library's result on the document with later duplicates deleted, LastWins must deliver every entry in order (pair collector) / keep the last (map); without repeated keys all three policies must agree and match the reference value.",
+            "Trusted: saphyr-parser events (generator self-check); key identity as stated by the property (structure + text + tag, style-insensitive). For the struct target only 'an error' is required under Error (serde's own duplicate-field / non-string-key errors may come first).",
+            "DESIGN.md §3 C04"),
+    "C05": ("model_checking",
+            "bounded-exhaustive enumeration of (run-time schema, document) pairs: all schemas up to a constructor bound x canonical documents x all single (and for small schemas double) edit mutants, against a reference interpreter over the parser-validated document tree",
+            "All schemas with up to N type constructors (quick 3, thorough 4) over bool/i64/String, Option, Vec, tuples, maps, structs (with and without deny_unknown_fields) and an enum with unit/newtype/tuple/struct variants, realised by a DeserializeSeed that issues exactly the deserialize_* calls of a derived impl; for each schema all canonical documents (every variant in every notation) and all single-edit mutants (replace by another kind, insert/delete/swap elements, rename/duplicate keys, bare variant names, tag changes), double edits for schemas up to a size bound, block and flow. A reference interpreter (definite only where the statement is) predicts value / error / unspecified; the real result must equal the value, be an error where the reference says so, and in unspecified cases no scalar token may be delivered at a position other than its own.",
+            "Trusted: the reference interpreter (Unspecified wherever the statement is silent: quoted scalars for non-string targets, null for containers, tagged mappings, null struct keys, bare payload variants' own value); serde's derived-impl behaviour as mirrored by the seed.",
+            "DESIGN.md §3 C05"),
     "C12": ("model_checking",
             "bounded-exhaustive enumeration of scalar values x positions x serializer option vectors, identity round-trip oracle on the real serializer and deserializer",
             "All strings up to the length bound over a 52-symbol adversarial alphabet plus 150 look-alike words, in 12 positions (root, sequence item, nested item, map value/key, flow item/value/key, struct field, newtype/tuple variant payload, map inside sequence) under every combination of quote_all, yaml_12, prefer_block_scalars, compact_list_indent, tagged_enums x indent steps x two fold widths; all integer boundaries of every width; a complete f32 sub-lattice (thorough: all 2^32 patterns) and an f64 boundary lattice; chars, unit, options, byte arrays. Each value is serialized by the real serializer, must scan as exactly one document in saphyr-parser and must read back as the identical value; emitted floats must match the YAML float grammar.",
